@@ -205,3 +205,14 @@ VARIANTS += [
  dict(name='decode-helper-called-with-other-bytes-too', expect='flagged(reader/decodes-those-bytes)',
       edits=[(C, DEC_OLD, '\tif _, err := decodeContent([]byte(url)); err == nil {\n\t\treturn nil, corecrl.ErrCacheMiss\n\t}\n' + dec_helper()), (C, SET_DOC, DEC_FN)]),
 ]
+
+# ---- the roles of the writer's parameters are read off the writer, not assumed from their position
+SIG_OLD = 'func WriteFile(tempDir, path string, content []byte) (writeErr error) {'
+SIG_SWAPPED = 'func WriteFile(path, tempDir string, content []byte) (writeErr error) {'
+CALL_OLD = 'file.WriteFile(c.root, filepath.Join(c.root, c.fileName(url)), contentBytes)'
+VARIANTS += [
+ dict(name='benign-writer-params-reordered', expect='silent',
+      edits=[(F, SIG_OLD, SIG_SWAPPED), (C, CALL_OLD, 'file.WriteFile(filepath.Join(c.root, c.fileName(url)), c.root, contentBytes)')],
+      why='declaration and call agree: the directory argument is the cache root, the destination Join(root, key)'),
+ dict(name='writer-params-reordered-call-not', file=F, expect='flagged(set/)', find=SIG_OLD, replace=SIG_SWAPPED),
+]
